@@ -13,13 +13,23 @@ Written from the property statement and the README register table (sc62015/pysc6
     treats that width as an assumption (see c08.py: a TEMP value all implementations agree on and that is the
     written value truncated to some other width is not reported).
 
+  * Rust-only names (round 3).  The Rust register file accepts more names than the Python one: the IMR mirror
+    register (`RegName::IMR`, an 8-bit cell of its own; it overlaps none of the names above) and out-of-range
+    scratch / unknown operand names (WNAMES).  The statement's law -- a read returns the last value written to
+    the register *or to an overlapping register* -- makes every non-overlapping pair independent, so the model
+    keeps IMR as a separate cell and lets writes to WNAMES change nothing else.  IMR is a mirror of the IMEM byte
+    0xFB and is not part of a register snapshot, so the model only knows a *set* of acceptable IMR values
+    (`Model.x`): after a write the written value truncated to some width 8..32; in a fresh register file that a
+    snapshot was applied to either 0 (fresh) or the value in the snapshotted file (reproduced); after an executed
+    instruction anything (None) until the next write.
+
 The model is the "last value written to it or to an overlapping register, truncated to its architectural
 width" law made executable.
 """
 
 from __future__ import annotations
 
-from typing import Dict, List, Tuple
+from typing import Dict, List, Optional, Sequence, Tuple
 
 NUM_TEMPS = 14
 TEMP_NAMES: Tuple[str, ...] = tuple(f"TEMP{i}" for i in range(NUM_TEMPS))
@@ -48,6 +58,18 @@ for _n in NAMES:
 
 FLAG_NAME = {"C": "FC", "Z": "FZ"}
 
+# names only the Rust register file accepts: read back (XNAMES) / written only (WNAMES)
+XNAMES: Tuple[str, ...] = ("IMR",)
+WNAMES: Tuple[str, ...] = ("TEMP14", "TEMP15", "TEMP255", "UNKNOWN")
+RUST_ONLY = frozenset(XNAMES + WNAMES)
+XOk = Optional[Tuple[int, ...]]   # acceptable values of a Rust-only register; None = anything
+
+
+def x_written(value: int) -> Tuple[int, ...]:
+    """Acceptable reads after writing `value` to a Rust-only register: truncated to some width 8..32."""
+    v = value & 0xFFFFFFFF
+    return tuple(sorted({v & ((1 << w) - 1) for w in range(8, 33)}))
+
 
 def mask(name: str) -> int:
     return (1 << WIDTH[name]) - 1
@@ -60,8 +82,14 @@ class Model:
         self.store: Dict[str, int] = {g: 0 for g in MEMBERS}
         # raw (untruncated) value of the last write to each TEMP register, for the width assumption
         self.temp_raw: Dict[str, int] = {t: 0 for t in TEMP_NAMES}
+        self.x: Dict[str, XOk] = {n: (0,) for n in XNAMES}
 
     def set(self, name: str, value: int) -> None:
+        if name in self.x:
+            self.x[name] = x_written(value)
+            return
+        if name in WNAMES:
+            return  # overlaps nothing: no other register may change (its own value is not modelled)
         v = value & mask(name)
         if name in ("BA", "I", "X", "Y", "U", "S", "PC", "F"):
             self.store[name] = v
@@ -100,3 +128,22 @@ class Model:
 
     def read_all(self) -> List[int]:
         return [self.get(n) for n in NAMES]
+
+    def read_x(self) -> List[XOk]:
+        return [self.x[n] for n in XNAMES]
+
+    def load(self, values: Sequence[int]) -> None:
+        """Take over the values a register file was observed to hold (full registers and TEMPs)."""
+        for g in MEMBERS:
+            self.store[g] = int(values[INDEX[g]]) & mask(g)
+        for t in TEMP_NAMES:
+            self.temp_raw[t] = self.store[t]
+
+    def x_fresh_after_snapshot(self, at_snapshot: Sequence[XOk]) -> None:
+        """Rust-only registers of a fresh file that a snapshot was applied to: fresh (0) or reproduced."""
+        for n, ok in zip(XNAMES, at_snapshot):
+            self.x[n] = None if ok is None else tuple(sorted(set(ok) | {0}))
+
+    def x_unknown(self) -> None:
+        for n in XNAMES:
+            self.x[n] = None
